@@ -15,7 +15,7 @@ Next == GenNext
 Spec == Init /\ [][Next]_vars
 
 Ltoks == X!Label(toks, 1)
-Ref   == S!SRun(toks, S!SBoot, 400)
+Ref   == S!SEval(toks, 400)
 Vm    == X!Submit([X!Boot EXCEPT !.ilim = 2000], Ltoks, "eval")
 
 \* first unknown word (the generator's only build-time failure)
